@@ -9,6 +9,8 @@ def T(id, old, new, **kw):
 V = "    ind2 = np.where((cum_acc2 > start * cum_acc2[-1]) & (cum_acc2 < end * cum_acc2[-1]))\n"
 O = "    ind2 = np.where((im_vals > start * im_vals[-1]) & (im_vals < end * im_vals[-1]))\n"
 VARIANTS = [
+    B("sig-dur-total-from-snapshot", O, O.replace("end * im_vals[-1]", "end * asig.arias_intensity"), "R-MEASURE"),
+    B("brac-dur-reuses-snapshot", "def calc_brac_dur(asig, threshold, se=False):\n", "def calc_brac_dur(asig, threshold, se=False):\n    if threshold == 0.01 and not se and asig.t_b01:\n        return asig.t_b01\n", "R-MEASURE"),
     B("vals-lower-nonstrict", V, V.replace("cum_acc2 > start", "cum_acc2 >= start"), "R-STRICT"),
     B("vals-upper-nonstrict", V, V.replace("cum_acc2 < end", "cum_acc2 <= end"), "R-STRICT"),
     B("obj-lower-nonstrict", O, O.replace("im_vals > start", "im_vals >= start"), "R-STRICT"),
